@@ -2,7 +2,8 @@
 
 This process imports pylatexenc (and the default specification tables) but
 NEVER parses and never builds a context database.  For every request line
-{"id": .., "job": {"ctx": name, "s": str, "tolerant": bool}} it forks a child;
+{"id": .., "job": {"ctx": name, "s": str, "tolerant": bool}} (or {"id": ..,
+"history": [jobs]}: all of them in ONE child, in order) it forks a child;
 the child builds the job's context database from scratch, runs exactly that one
 parse and reports the canonical dump; the parent prints {"id": .., "out": ..}.
 So every answer is the result of the job as the FIRST AND ONLY parse of an
@@ -40,7 +41,10 @@ def main():
         if pid == 0:
             os.close(r)
             try:
-                out = run_one(req['job'])
+                if 'history' in req:      # a whole history from the pristine state (causality confirmation)
+                    out = '\x1f'.join(C.run_job(j) for j in req['history'])
+                else:
+                    out = run_one(req['job'])
             except RecursionError:
                 out = '!RECURSION'
             except BaseException as e:            # reported, never silently equal to a dump
